@@ -1,5 +1,6 @@
 import Qhttp.Model.Copier
 import Qhttp.Lemmas.C14Run
+import Qhttp.Lemmas.C14Seq
 /-
   C14 — the device copier delivers exactly the requested bytes and signals completion once.
 -/
@@ -164,6 +165,412 @@ theorem reversed_range (c : Cfg) (hseq : c.seq = false) (hnf : anyFault c = fals
     rw [hl, isErr_eq, C14L.cnt_append, C14L.cnt_append, C14L.cnt_of_mk C14L.mk_not_err hmk]
     split <;> simp [C14L.cnt_cons]
 
+/-! ### 3. sequential source -/
+
+/-- the bytes an event makes available on a sequential source -/
+def pieceOf : Ev → Bytes | .arrive b => b | _ => []
+/-- everything that arrived, in order -/
+def arrivedOf (evs : List Ev) : Bytes := evs.flatMap pieceOf
+theorem arrivedOf_eq : arrivedOf = C14L.arrived := rfl
+
+/-- only arrivals and event-loop turns -/
+def feedOnly (r : List Ev) : Bool := r.all fun e => match e with | .arrive _ => true | .turn => true | _ => false
+
+theorem feedOnly_iff {r : List Ev} (h : feedOnly r = true) : ∀ e ∈ r, e ≠ .start ∧ e ≠ .stop ∧ e ≠ .eof := by
+  intro e he
+  have := List.all_eq_true.1 h e he
+  cases e <;> simp_all
+
+/-- a sequential source delivering its data in arbitrary pieces, interleaved with arbitrary
+    event-loop turns, then end-of-data: exactly the arrived bytes are written, no error, exactly
+    one completion, and it is the very last observation (after the last write) -/
+theorem sequential (c : Cfg) (hseq : c.seq = true) (hnf : anyFault c = false)
+    (r : List Ev) (hr : feedOnly r = true) :
+    let s := Copier.run c (.start :: (r ++ [.eof]))
+    writtenOf s.log = arrivedOf r ∧
+    Obs.countP isFin s.log = 1 ∧
+    Obs.countP isErr s.log = 0 ∧
+    s.log.getLast? = some fin := by
+  intro s
+  obtain ⟨hcl, _, h3⟩ := C14L.run_seq_eof c hseq r (feedOnly_iff hr)
+  obtain ⟨hw, he, L, hL⟩ := h3 hnf
+  refine ⟨hw, hcl.cnt_fin, he, ?_⟩
+  show (Copier.run c (.start :: (r ++ [.eof]))).log.getLast? = some fin
+  rw [hL]; simp
+
+/-! ### 4. device faults on a random-access copy -/
+
+/-- a device fault that a copy left to run actually meets: a device that does not open, a failing
+    seek to a range start > 0, or a failing read / write whose index `k` is that of a block the
+    copy gets to (`k = 0`, or `k * block < |wanted|`) -/
+def faultReached (c : Cfg) : Bool :=
+  c.srcOpenFails || c.dstOpenFails || (c.seekFails && decide (rangeFrom c > 0)) ||
+  (match c.readFailAt with | some k => k == 0 || decide (k * c.block < (wanted c).length) | none => false) ||
+  (match c.writeFailAt with | some k => k == 0 || decide (k * c.block < (wanted c).length) | none => false)
+
+/-- a random-access copy left to run, whatever devices fail: the timer is idle, exactly one
+    completion with nothing but event markers after it, a prefix of the wanted bytes written, and
+    either no error and everything written, or exactly one error (which precedes the completion) -/
+theorem outcome_random_access (c : Cfg) (hseq : c.seq = false) (hb : c.block ≥ 1) (hr : rangeOK c = true)
+    (n : Nat) (hn : n ≥ (wanted c).length / c.block + 2) :
+    let s := Copier.run c (.start :: List.replicate n .turn)
+    s.pending = .none ∧
+    Obs.countP isFin s.log = 1 ∧
+    Obs.countP isWrote ((s.log.dropWhile (fun o => !isFin o)).drop 1) = 0 ∧
+    Obs.countP isErr (s.log.dropWhile (fun o => !isFin o)) = 0 ∧
+    writtenOf s.log <+: wanted c ∧
+    ((Obs.countP isErr s.log = 0 ∧ writtenOf s.log = wanted c) ∨ Obs.countP isErr s.log = 1) := by
+  intro s
+  have hq : ∀ e ∈ List.replicate n Ev.turn, e ≠ .start ∧ e ≠ .stop := by
+    intro e he; rw [List.eq_of_mem_replicate he]; simp
+  have hinv := C14L.run_ninv c hseq hb (C14L.rangeNF_of_ok c hr) _ hq
+  rw [C14L.nTurns_replicate] at hinv
+  have hd : C14L.Done c s := hinv.done hb (by rw [wanted_eq] at hn; omega)
+  refine ⟨hd.pending, hd.closed.cnt_fin, hd.closed.no_wrote_after, hd.closed.no_err_after, hd.pre, ?_⟩
+  rcases hd.res with ⟨he, hw, _, _⟩ | ⟨he, _⟩
+  · exact Or.inl ⟨he, hw⟩
+  · exact Or.inr he
+
+/-- srcOpenFails / dstOpenFails / seekFails with a range start > 0 / `readFailAt = some k` /
+    `writeFailAt = some k` (for a block the copy reaches): exactly one `err`, exactly one `fin`,
+    the `err` before the `fin` (none at or after it), no write after the `fin`, and what was
+    written is a prefix of `wanted` -/
+theorem errors (c : Cfg) (hseq : c.seq = false) (hb : c.block ≥ 1) (hr : rangeOK c = true)
+    (hf : faultReached c = true) (n : Nat) (hn : n ≥ (wanted c).length / c.block + 2) :
+    let s := Copier.run c (.start :: List.replicate n .turn)
+    Obs.countP isErr s.log = 1 ∧
+    Obs.countP isFin s.log = 1 ∧
+    Obs.countP isErr (s.log.dropWhile (fun o => !isFin o)) = 0 ∧
+    Obs.countP isWrote ((s.log.dropWhile (fun o => !isFin o)).drop 1) = 0 ∧
+    writtenOf s.log <+: wanted c ∧
+    s.pending = .none := by
+  intro s
+  have hq : ∀ e ∈ List.replicate n Ev.turn, e ≠ .start ∧ e ≠ .stop := by
+    intro e he; rw [List.eq_of_mem_replicate he]; simp
+  have hnf := C14L.rangeNF_of_ok c hr
+  have hinv := C14L.run_ninv c hseq hb hnf _ hq
+  rw [C14L.nTurns_replicate] at hinv
+  have hd : C14L.Done c s := hinv.done hb (by rw [wanted_eq] at hn; omega)
+  refine ⟨?_, hd.closed.cnt_fin, hd.closed.no_err_after, hd.closed.no_wrote_after, hd.pre, hd.pending⟩
+  rcases hd.res with ⟨_, _, hsf, hno⟩ | ⟨he, _⟩
+  · exfalso
+    rw [C14L.startFails_nonseq c hseq hnf] at hsf
+    simp only [Bool.or_eq_false_iff, Bool.and_eq_false_iff, decide_eq_false_iff_not] at hsf
+    obtain ⟨⟨h1, h2⟩, h3⟩ := hsf
+    have hfr : (rangeFrom c > 0) ↔ C14L.f0 c > 0 := by rw [hnf.from_eq]; omega
+    simp only [faultReached, h1, h2, Bool.false_or, Bool.or_eq_true, Bool.and_eq_true, decide_eq_true_eq] at hf
+    rcases hf with (⟨h4, h5⟩ | h4) | h4
+    · rcases h3 with h3 | h3
+      · exact h3 (hfr.1 h5)
+      · rw [h3] at h4; cases h4
+    · cases hk : c.readFailAt with
+      | none => rw [hk] at h4; cases h4
+      | some k =>
+        rw [hk] at h4
+        simp only [Bool.or_eq_true, beq_iff_eq, decide_eq_true_eq] at h4
+        exact hno k (by simp [C14L.faultAt, hk]) h4
+    · cases hk : c.writeFailAt with
+      | none => rw [hk] at h4; cases h4
+      | some k =>
+        rw [hk] at h4
+        simp only [Bool.or_eq_true, beq_iff_eq, decide_eq_true_eq] at h4
+        exact hno k (by simp [C14L.faultAt, hk]) h4
+  · exact he
+
+/-! ### 5. stop() halts the copy -/
+
+theorem findIdx_stop (pre post : List Ev) (hpre : Ev.stop ∉ pre) :
+    (pre ++ .stop :: post).findIdx? (· == .stop) = some pre.length := by
+  induction pre with
+  | nil => simp [List.findIdx?_cons]
+  | cons a l ih =>
+    have ha : a ≠ .stop := fun e => hpre (by simp [e])
+    have hl : Ev.stop ∉ l := fun e => hpre (List.mem_cons_of_mem _ e)
+    simp [List.findIdx?_cons, ha, ih hl]
+
+theorem afterStop_run (c : Cfg) (pre post : List Ev) (hpre : Ev.stop ∉ pre) (hpost : quiet post = true) :
+    (∃ ms, afterStop (pre ++ .stop :: post) (Copier.run c (pre ++ .stop :: post)).log = fin :: ms ∧
+           ∀ o ∈ ms, C14L.isMk o = true) ∧
+    writtenOf (Copier.run c (pre ++ .stop :: post)).log = writtenOf (Copier.run c pre).log := by
+  obtain ⟨hnot, ms, hl, hms⟩ := C14L.run_stop c pre post (quiet_iff.1 hpost)
+  refine ⟨⟨ms, ?_, hms⟩, ?_⟩
+  · unfold afterStop
+    rw [findIdx_stop pre post hpre]
+    simp only []
+    rw [hl, C14L.dropWhile_ne_mk hnot]; rfl
+  · rw [hl, writtenOf_eq, C14L.written_append, C14L.written_cons, C14L.written_cons (a := fin),
+      C14L.written_of_mk hms]
+    simp [C14L.written, fin]
+
+/-- for every configuration (any source kind, range, faults — inside or outside the documented
+    domain) and every event list `pre ++ stop :: post` whose first `stop` is the one shown and
+    where no `start`/`stop` follows it: after the marker of the stop event the log holds exactly
+    the `fin` that `stop()` itself signals, then event markers only — no `wrote`, no other `fin`,
+    whatever turns, arrivals or eof follow; the destination content is what it was before -/
+theorem stop_halts (c : Cfg) (pre post : List Ev) (hpre : Ev.stop ∉ pre) (hpost : quiet post = true) :
+    let evs := pre ++ .stop :: post
+    let tail := afterStop evs (Copier.run c evs).log
+    Obs.countP isWrote tail = 0 ∧ Obs.countP isFin tail = 1 ∧
+    writtenOf (Copier.run c evs).log = writtenOf (Copier.run c pre).log := by
+  intro evs tail
+  obtain ⟨⟨ms, ht, hms⟩, hw⟩ := afterStop_run c pre post hpre hpost
+  refine ⟨?_, ?_, hw⟩
+  · show Obs.countP isWrote (afterStop evs (Copier.run c evs).log) = 0
+    rw [ht, isWrote_eq, C14L.cnt_cons, C14L.cnt_of_mk C14L.mk_not_wrote hms]; rfl
+  · show Obs.countP isFin (afterStop evs (Copier.run c evs).log) = 1
+    rw [ht, isFin_eq, C14L.cnt_cons, C14L.cnt_of_mk C14L.mk_not_fin hms]; rfl
+
+/-! ### 6. the executable predicate holds on every model run -/
+
+/-- `holds` from its five clauses in mathematical form (inside the documented domain) -/
+theorem holds_intro (c : Cfg) (evs : List Ev) (obs : List Obs)
+    (h : c.block ≥ 1 → (c.seq = true → c.range = none) → rangeOK c = true →
+      (writtenOf obs <+: wanted c) ∧
+      (hasStop evs = false → Obs.countP isWrote ((obs.dropWhile (fun o => !isFin o)).drop 1) = 0) ∧
+      (hasStop evs = false → anyFault c = false →
+        (if c.seq then evs.getLast? = some .eof
+         else nTurns evs ≥ (wanted c).length / c.block + 2 ∧ evs.head? = some .start) →
+        writtenOf obs = wanted c ∧ Obs.countP isFin obs = 1) ∧
+      (anyFault c = true → hasStop evs = false → c.seq = false → Obs.countP isErr obs ≥ 1 →
+        Obs.countP isFin obs = 1 ∧ Obs.countP isErr (obs.dropWhile (fun o => !isFin o)) = 0) ∧
+      (Obs.countP isWrote (afterStop evs obs) = 0 ∧ Obs.countP isFin (afterStop evs obs) ≤ 1)) :
+    holds c evs obs = true := by
+  unfold holds
+  simp only []
+  change (if (!(decide (c.block ≥ 1) && !(c.seq && c.range.isSome) && rangeOK c)) = true then true else _) = true
+  cases hdom : (decide (c.block ≥ 1) && !(c.seq && c.range.isSome) && rangeOK c)
+  · rfl
+  · simp only [Bool.and_eq_true, decide_eq_true_eq, Bool.not_eq_true', Bool.and_eq_false_iff] at hdom
+    obtain ⟨⟨hb, hsr⟩, hr⟩ := hdom
+    have hsr' : c.seq = true → c.range = none := by
+      intro hs
+      rcases hsr with h | h
+      · rw [hs] at h; cases h
+      · cases hh : c.range <;> simp_all
+    obtain ⟨hA, hB, hC, hD, hE1, hE2⟩ := h hb hsr' hr
+    simp only [Bool.not_true, Bool.false_eq_true, if_false]
+    refine Bool.and_eq_true_iff.2 ⟨Bool.and_eq_true_iff.2 ⟨Bool.and_eq_true_iff.2 ⟨Bool.and_eq_true_iff.2 ⟨?_, ?_⟩, ?_⟩, ?_⟩,
+      Bool.and_eq_true_iff.2 ⟨?_, ?_⟩⟩
+    · exact List.isPrefixOf_iff_prefix.2 hA
+    · cases hst : hasStop evs
+      · rw [hB hst]; rfl
+      · rfl
+    · generalize hc : (!hasStop evs && !anyFault c && _) = cnd
+      cases cnd
+      · rfl
+      · simp only [Bool.and_eq_true, Bool.not_eq_true'] at hc
+        obtain ⟨⟨h1, h2⟩, h3⟩ := hc
+        have := hC h1 h2 (by
+          cases hs : c.seq
+          · rw [hs] at h3; simpa using h3
+          · rw [hs] at h3; simpa using h3)
+        simp [this.1, this.2]
+    · generalize hc : (anyFault c && !hasStop evs && !c.seq && _) = cnd
+      cases cnd
+      · rfl
+      · simp only [Bool.and_eq_true, Bool.not_eq_true', decide_eq_true_eq] at hc
+        obtain ⟨⟨⟨h1, h2⟩, h3⟩, h4⟩ := hc
+        have := hD h1 h2 h3 h4
+        simp [this.1, this.2]
+    · rw [hE1]; rfl
+    · exact decide_eq_true hE2
+
+/-- scenario shape: `start` first and only there, at most one `stop`; for a sequential source
+    additionally: `eof` at most once and only as the last event, the arrivals are (in order) pieces of
+    a prefix of the source content, and all of it when the scenario ends with `eof`.  (On a
+    random-access source arrivals and eof are no-ops and may occur anywhere.) -/
+def shape (c : Cfg) (evs : List Ev) : Bool :=
+  match evs with
+  | .start :: rest =>
+    !rest.contains .start && decide ((rest.filter (· == .stop)).length ≤ 1) &&
+    (!c.seq ||
+      (!rest.dropLast.contains .eof && (arrivedOf rest).isPrefixOf c.src &&
+       (rest.getLast? != some .eof || arrivedOf rest == c.src)))
+  | _ => false
+
+theorem snoc_cases {α : Type} (l : List α) : l = [] ∨ ∃ r a, l = r ++ [a] := by
+  induction l with
+  | nil => exact Or.inl rfl
+  | cons x l ih =>
+    right
+    rcases ih with rfl | ⟨r, a, rfl⟩
+    · exact ⟨[], x, rfl⟩
+    · exact ⟨x :: r, a, rfl⟩
+
+theorem stop_count_split {r1 r2 : List Ev}
+    (h : ((r1 ++ Ev.stop :: r2).filter (· == Ev.stop)).length ≤ 1) : Ev.stop ∉ r1 ∧ Ev.stop ∉ r2 := by
+  rw [List.filter_append, List.length_append, List.filter_cons] at h
+  simp only [beq_self_eq_true, if_true, List.length_cons] at h
+  constructor
+  · intro hm
+    have : 0 < (r1.filter (· == Ev.stop)).length := List.length_filter_pos_iff.2 ⟨_, hm, by simp⟩
+    omega
+  · intro hm
+    have : 0 < (r2.filter (· == Ev.stop)).length := List.length_filter_pos_iff.2 ⟨_, hm, by simp⟩
+    omega
+
+theorem hasStop_iff (evs : List Ev) : hasStop evs = true ↔ Ev.stop ∈ evs := by
+  simp [hasStop]
+
+theorem afterStop_none (evs : List Ev) (obs : List Obs) (h : Ev.stop ∉ evs) : afterStop evs obs = [] := by
+  unfold afterStop
+  have : evs.findIdx? (· == Ev.stop) = none := by
+    apply List.findIdx?_eq_none_iff.2
+    intro x hx
+    cases hh : (x == Ev.stop)
+    · rfl
+    · have : x = Ev.stop := by simpa using hh
+      exact absurd (this ▸ hx) h
+  rw [this]
+
+theorem nTurns_start (rest : List Ev) : nTurns (.start :: rest) = C14L.nTurns rest := by
+  rw [nTurns_eq, C14L.nTurns_cons]; simp
+
+theorem wanted_none (c : Cfg) (h : c.range = none) : wanted c = c.src := by simp [wanted, h]
+
+/-- **C14, main theorem.**  On every model run of the scenario shape — `start`, then any mix of
+    event-loop turns, at most one `stop`, and for a sequential source the arrivals of the source
+    content in arbitrary pieces with `eof` last — for every configuration (content, block size,
+    range, source kind, device faults), the executable predicate evaluated by the driver holds. -/
+theorem holds_run (c : Cfg) (evs : List Ev) (hs : shape c evs = true) :
+    holds c evs (Copier.run c evs).log = true := by
+  cases evs with
+  | nil => simp [shape] at hs
+  | cons e0 rest =>
+  cases e0 with
+  | turn => simp [shape] at hs
+  | stop => simp [shape] at hs
+  | arrive b => simp [shape] at hs
+  | eof => simp [shape] at hs
+  | start =>
+  simp only [shape, Bool.and_eq_true, Bool.not_eq_true', decide_eq_true_eq, Bool.or_eq_true,
+    List.contains_eq_mem, decide_eq_false_iff_not, bne_iff_ne, ne_eq, beq_iff_eq] at hs
+  obtain ⟨⟨h_ns, h_st⟩, h_sq⟩ := hs
+  apply holds_intro
+  intro hb hsr hr
+  have hnf := C14L.rangeNF_of_ok c hr
+  by_cases hstop : Ev.stop ∈ rest
+  · -- a stop: only the prefix clause and the stop clause are active
+    obtain ⟨r1, r2, rfl⟩ := List.append_of_mem hstop
+    obtain ⟨hs1, hs2⟩ := stop_count_split h_st
+    have hn1 : Ev.start ∉ r1 := fun h => h_ns (List.mem_append_left _ h)
+    have hn2 : Ev.start ∉ r2 := fun h => h_ns (List.mem_append_right _ (List.mem_cons_of_mem _ h))
+    have hq1 : ∀ e ∈ r1, e ≠ Ev.start ∧ e ≠ Ev.stop :=
+      fun e he => ⟨fun h => hn1 (h ▸ he), fun h => hs1 (h ▸ he)⟩
+    have hq2 : quiet r2 = true :=
+      quiet_iff.2 fun e he => ⟨fun h => hn2 (h ▸ he), fun h => hs2 (h ▸ he)⟩
+    have hpre : Ev.stop ∉ (Ev.start :: r1) := by simp [hs1]
+    have hevs : Ev.start :: (r1 ++ Ev.stop :: r2) = (Ev.start :: r1) ++ Ev.stop :: r2 := rfl
+    have hhas : hasStop (Ev.start :: (r1 ++ Ev.stop :: r2)) = true := by
+      rw [hasStop_iff]; simp
+    obtain ⟨⟨ms, ht, hms⟩, hw⟩ := afterStop_run c (Ev.start :: r1) r2 hpre hq2
+    rw [← hevs] at ht hw
+    refine ⟨?_, ?_, ?_, ?_, ?_, ?_⟩
+    · rw [hw]
+      cases hseq : c.seq
+      · exact (C14L.run_ninv c hseq hb hnf r1 hq1).prefix
+      · rcases h_sq with h | ⟨⟨he, hp⟩, _⟩
+        · rw [hseq] at h; cases h
+        · have he1 : ∀ e ∈ r1, e ≠ Ev.start ∧ e ≠ Ev.stop ∧ e ≠ Ev.eof := by
+            intro e he'
+            refine ⟨(hq1 e he').1, (hq1 e he').2, ?_⟩
+            intro h; subst h
+            apply he
+            rw [List.dropLast_append_of_ne_nil (by simp)]
+            exact List.mem_append_left _ he'
+          have h1 := (C14L.run_sinv c hseq r1 he1).prefix
+          rw [wanted_none c (hsr hseq)]
+          refine h1.trans (List.IsPrefix.trans ?_ (List.isPrefixOf_iff_prefix.1 hp))
+          rw [arrivedOf_eq, C14L.arrived_append]
+          exact List.prefix_append _ _
+    · intro h; rw [hhas] at h; cases h
+    · intro h; rw [hhas] at h; cases h
+    · intro _ h; rw [hhas] at h; cases h
+    · rw [ht, isWrote_eq, C14L.cnt_cons, C14L.cnt_of_mk C14L.mk_not_wrote hms]; rfl
+    · rw [ht, isFin_eq, C14L.cnt_cons, C14L.cnt_of_mk C14L.mk_not_fin hms]; exact Nat.le_refl _
+  · -- left to run
+    have hq : ∀ e ∈ rest, e ≠ Ev.start ∧ e ≠ Ev.stop :=
+      fun e he => ⟨fun h => h_ns (h ▸ he), fun h => hstop (h ▸ he)⟩
+    have hnostop : Ev.stop ∉ (Ev.start :: rest) := by simp [hstop]
+    have hhas : hasStop (Ev.start :: rest) = false := by
+      cases h : hasStop (Ev.start :: rest)
+      · rfl
+      · exact absurd ((hasStop_iff _).1 h) hnostop
+    have hE : Obs.countP isWrote (afterStop (Ev.start :: rest) (Copier.run c (Ev.start :: rest)).log) = 0 ∧
+        Obs.countP isFin (afterStop (Ev.start :: rest) (Copier.run c (Ev.start :: rest)).log) ≤ 1 := by
+      rw [afterStop_none _ _ hnostop]; exact ⟨rfl, Nat.zero_le _⟩
+    cases hseq : c.seq
+    · -- random-access source
+      have hinv := C14L.run_ninv c hseq hb hnf rest hq
+      refine ⟨hinv.prefix, ?_, ?_, ?_, hE⟩
+      · intro _
+        rcases hinv with h | h
+        · rw [isFin_eq, C14L.dropWhile_notFin_of_cnt h.nofin]; rfl
+        · exact h.closed.no_wrote_after
+      · intro _ hfa hcond
+        simp only [Bool.false_eq_true, if_false] at hcond
+        rw [nTurns_start] at hcond
+        have hd := hinv.done hb (by have := hcond.1; rw [wanted_eq] at this; omega)
+        rcases hd.res with ⟨_, hw, _, _⟩ | ⟨_, hf⟩
+        · exact ⟨hw, hd.closed.cnt_fin⟩
+        · rw [← anyFault_eq, hfa] at hf; cases hf
+      · intro _ _ _ herr
+        rcases hinv with h | h
+        · have := h.noerr; rw [isErr_eq] at herr; omega
+        · exact ⟨h.closed.cnt_fin, h.closed.no_err_after⟩
+    · -- sequential source
+      have hrange := hsr hseq
+      rcases h_sq with h | ⟨⟨he, hp⟩, hlast⟩
+      · rw [hseq] at h; cases h
+      have hp' := List.isPrefixOf_iff_prefix.1 hp
+      rw [wanted_none c hrange]
+      rcases snoc_cases rest with rfl | ⟨r, a, rfl⟩
+      · -- just `start`
+        have hinv := C14L.run_sinv c hseq [] (by simp)
+        refine ⟨hinv.prefix.trans (by simp [C14L.arrived]), ?_, ?_, ?_, hE⟩
+        · intro _
+          rcases hinv with h | h
+          · rw [isFin_eq, C14L.dropWhile_notFin_of_cnt h.nofin]; rfl
+          · exact h.closed.no_wrote_after
+        · intro _ _ hcond; simp at hcond
+        · intro _ _ h; cases h
+      · rw [List.dropLast_concat] at he
+        rw [List.getLast?_concat] at hlast
+        have hre : ∀ e ∈ r, e ≠ Ev.start ∧ e ≠ Ev.stop ∧ e ≠ Ev.eof := fun e he' =>
+          ⟨(hq e (List.mem_append_left _ he')).1, (hq e (List.mem_append_left _ he')).2,
+           fun h => he (h ▸ he')⟩
+        by_cases ha : a = Ev.eof
+        · subst ha
+          obtain ⟨hcl, hpre, hclean⟩ := C14L.run_seq_eof c hseq r hre
+          have harr : arrivedOf (r ++ [Ev.eof]) = C14L.arrived r := by
+            rw [arrivedOf_eq, C14L.arrived_append]; simp [C14L.arrived, C14L.pieceOf]
+          rw [harr] at hp' hlast
+          refine ⟨hpre.trans hp', fun _ => hcl.no_wrote_after, ?_, ?_, hE⟩
+          · intro _ hfa _
+            refine ⟨?_, hcl.cnt_fin⟩
+            rw [writtenOf_eq, (hclean (by rw [← anyFault_eq]; exact hfa)).1]
+            rcases hlast with h | h
+            · exact absurd rfl h
+            · exact h
+          · intro _ _ h; cases h
+        · have hall : ∀ e ∈ r ++ [a], e ≠ Ev.start ∧ e ≠ Ev.stop ∧ e ≠ Ev.eof := by
+            intro e he'
+            rcases List.mem_append.1 he' with h | h
+            · exact hre e h
+            · simp at h; subst h; exact ⟨(hq e he').1, (hq e he').2, ha⟩
+          have hinv := C14L.run_sinv c hseq (r ++ [a]) hall
+          refine ⟨hinv.prefix.trans hp', ?_, ?_, ?_, hE⟩
+          · intro _
+            rcases hinv with h | h
+            · rw [isFin_eq, C14L.dropWhile_notFin_of_cnt h.nofin]; rfl
+            · exact h.closed.no_wrote_after
+          · intro _ _ hcond
+            simp only [if_true] at hcond
+            rw [List.getLast?_cons, List.getLast?_concat] at hcond
+            simp at hcond
+            exact absurd hcond ha
+          · intro _ _ h; cases h
+
 /-! ### non-vacuity -/
 
 private def abcdefg : Bytes := [65, 66, 67, 68, 69, 70, 71]
@@ -182,5 +589,44 @@ example : (Copier.run { cfgR with range := some (5, 2) } [.start, .turn, .turn])
     [.ev 0, .ev 1, err, fin, .ev 2] := by decide
 example : (Copier.run { cfgR with range := some (3, 2) } [.start, .turn, .turn]).log =
     [.ev 0, .ev 1, fin, .ev 2] := by decide
+
+-- a stop after the first turn: "CDE" was written, then stop's `fin`, then nothing
+private def evsStop : List Ev := [.start, .turn, .stop, .turn, .turn, .turn]
+example : (Copier.run cfgR evsStop).log =
+    [.ev 0, .ev 1, wrote [67, 68, 69], .ev 2, fin, .ev 3, .ev 4, .ev 5] := by decide
+example : shape cfgR evsStop = true := by decide
+example : holds cfgR evsStop (Copier.run cfgR evsStop).log = true := by decide
+-- the hypotheses of `stop_halts` are satisfiable (pre = start, turn; post = three turns)
+example : Ev.stop ∉ [Ev.start, Ev.turn] ∧ quiet [Ev.turn, Ev.turn, Ev.turn] = true := by decide
+
+-- a sequential source "ABC" delivered as "AB" | "" | "C"
+private def cfgS : Cfg := { src := [65, 66, 67], seq := true }
+private def evsS : List Ev := [.start, .turn, .arrive [65, 66], .arrive [], .turn, .arrive [67], .eof]
+example : (Copier.run cfgS evsS).log =
+    [.ev 0, .ev 1, .ev 2, wrote [65, 66], .ev 3, .ev 4, .ev 5, wrote [67], .ev 6, fin] := by decide
+example : writtenOf (Copier.run cfgS evsS).log = [65, 66, 67] ∧
+    Obs.countP isFin (Copier.run cfgS evsS).log = 1 := by decide
+example : cfgS.seq = true ∧ anyFault cfgS = false ∧
+    feedOnly [.turn, .arrive [65, 66], .arrive [], .turn, .arrive [67]] = true := by decide
+example : shape cfgS evsS = true := by decide
+example : holds cfgS evsS (Copier.run cfgS evsS).log = true := by decide
+-- a sequential copy stopped between two arrivals
+example : shape cfgS [.start, .arrive [65, 66], .stop, .arrive [67], .eof] = true := by decide
+example : holds cfgS [.start, .arrive [65, 66], .stop, .arrive [67], .eof]
+    (Copier.run cfgS [.start, .arrive [65, 66], .stop, .arrive [67], .eof]).log = true := by decide
+
+-- faults: the second read fails after one block was written; the seek fails
+private def cfgF : Cfg := { cfgR with readFailAt := some 1 }
+example : faultReached cfgF = true ∧ cfgF.seq = false ∧ rangeOK cfgF = true ∧ cfgF.block ≥ 1 := by decide
+example : (Copier.run cfgF [.start, .turn, .turn, .turn, .turn]).log =
+    [.ev 0, .ev 1, wrote [67, 68, 69], .ev 2, err, fin, .ev 3, .ev 4] := by decide
+example : faultReached { cfgR with seekFails := true } = true := by decide
+example : (Copier.run { cfgR with seekFails := true } [.start, .turn]).log = [.ev 0, err, fin, .ev 1] := by decide
+example : shape cfgF [.start, .turn, .turn, .turn, .turn] = true ∧
+    holds cfgF [.start, .turn, .turn, .turn, .turn]
+      (Copier.run cfgF [.start, .turn, .turn, .turn, .turn]).log = true := by decide
+-- `shape` rejects what it should: a second start, two stops, eof in the middle of a sequential run
+example : shape cfgR [.start, .turn, .start] = false ∧ shape cfgR [.start, .stop, .stop] = false ∧
+    shape cfgS [.start, .eof, .arrive [65]] = false ∧ shape cfgS [.start, .arrive [66]] = false := by decide
 
 end Qhttp.C14
